@@ -95,6 +95,11 @@ def run_one(name, check, fname, old, new, keep=False):
     scratch = tempfile.mkdtemp(prefix="rv-mut-")
     try:
         shutil.copytree(os.path.join(REPO, "rich"), os.path.join(scratch, "rich"))
+        # the documentation tables are used as oracles (C06, C18): they are part of the tree under test
+        os.makedirs(os.path.join(scratch, "docs", "source", "appendix"))
+        shutil.copy(os.path.join(REPO, "docs", "source", "appendix", "colors.rst"),
+                    os.path.join(scratch, "docs", "source", "appendix", "colors.rst"))
+        shutil.copy(os.path.join(REPO, "docs", "source", "style.rst"), os.path.join(scratch, "docs", "source", "style.rst"))
         path = os.path.join(scratch, "rich", fname)
         src = open(path, encoding="utf-8").read()
         if src.count(old) != 1:
